@@ -52,6 +52,7 @@ class W:
         self.rng, self.binary, self.big = rng, binary, big
         self.out = bytearray()
         self.fields = []     # (offset, length, kind) kind in idx,count,opcode,len,int,dbl,char,short
+        self.bounds = []     # (index into fields, first invalid value) for range-checked fields
         self.fresh = True    # text: directly after a segment/expression letter
 
     def raw(self, b):
@@ -68,9 +69,11 @@ class W:
                 self.out += self.rng.choice([b' ', b' ', b' ', b'  ', b'\t'])
             self.fresh = False
 
-    def uint(self, n, kind='int'):
+    def uint(self, n, kind='int', bound=None):
         self._sep()
         o = len(self.out)
+        if bound is not None:
+            self.bounds.append((len(self.fields), bound))
         if self.binary:
             self.out += struct.pack('>i' if self.big else '<i', n if -2**31 <= n < 2**31 else (n & 0x7fffffff))
         else:
@@ -220,12 +223,12 @@ def gen_expr(w, rng, m, T, kind, depth, cov):
     def ref():
         n = m.nv + m.nce
         w.ch('v')
-        w.uint(r.randrange(n), 'idx')
+        w.uint(r.randrange(n), 'idx', n)
         w.eol()
         hit('ref')
     def op(o):
         w.ch('o')
-        w.uint(o, 'opcode')
+        w.uint(o, 'opcode', T.max + 1)
         w.eol()
         hit('op%d' % o)
     def args(n, k):
@@ -281,7 +284,7 @@ def gen_expr(w, rng, m, T, kind, depth, cov):
         elif q < 0.86:
             op(T.single['NUMBEROF_SYM'][0]); n = r.randint(1, 3); w.uint(n, 'count'); w.eol(); args(n, 's')
         elif q < 0.94 and m.nf:
-            w.ch('f'); w.uint(r.randrange(m.nf), 'idx'); n = r.randint(0, 3); w.uint(n, 'count'); w.eol()
+            w.ch('f'); w.uint(r.randrange(m.nf), 'idx', m.nf); n = r.randint(0, 3); w.uint(n, 'count'); w.eol()
             hit('call'); args(n, 's')
         else:
             const()
@@ -318,27 +321,27 @@ def gen_bounds(w, rng, m, is_con, cov):
         elif t in (1, 2, 4):
             w.dbl()
         elif t == 5:
-            w.int32(rng.choice([0, 1, 2, 3, 7, -1])); w.uint(rng.randint(1, m.nv), 'idx1')
+            w.int32(rng.choice([0, 1, 2, 3, 7, -1])); w.uint(rng.randint(1, m.nv), 'idx1', m.nv + 1)
         w.eol()
 
 
 def linear_terms(w, rng, m, n):
     for _ in range(n):
-        w.uint(rng.randrange(m.nv), 'idx'); w.dbl(); w.eol()
+        w.uint(rng.randrange(m.nv), 'idx', m.nv); w.dbl(); w.eol()
 
 
 def gen_segment(w, rng, m, T, s, cov):
     r = rng
     cov['seg_' + s] = cov.get('seg_' + s, 0) + 1
     if s == 'C':
-        w.ch('C', 'seg'); w.uint(r.randrange(m.nc), 'idx'); w.eol(); gen_expr(w, r, m, T, 'n', r.randint(0, 4), cov)
+        w.ch('C', 'seg'); w.uint(r.randrange(m.nc), 'idx', m.nc); w.eol(); gen_expr(w, r, m, T, 'n', r.randint(0, 4), cov)
     elif s == 'L':
-        w.ch('L', 'seg'); w.uint(r.randrange(m.nl), 'idx'); w.eol(); gen_expr(w, r, m, T, 'l', r.randint(0, 4), cov)
+        w.ch('L', 'seg'); w.uint(r.randrange(m.nl), 'idx', m.nl); w.eol(); gen_expr(w, r, m, T, 'l', r.randint(0, 4), cov)
     elif s == 'O':
-        w.ch('O', 'seg'); w.uint(r.randrange(m.no), 'idx'); w.uint(r.choice([0, 1, 1, 2])); w.eol()
+        w.ch('O', 'seg'); w.uint(r.randrange(m.no), 'idx', m.no); w.uint(r.choice([0, 1, 1, 2])); w.eol()
         gen_expr(w, r, m, T, 'n', r.randint(0, 4), cov)
     elif s == 'V':
-        w.ch('V', 'seg'); w.uint(m.nv + r.randrange(m.nce), 'idx')
+        w.ch('V', 'seg'); w.uint(m.nv + r.randrange(m.nce), 'idx', m.nv + m.nce)
         nlt = r.choice([0, 0, 1, 2]) if m.nv else 0
         w.uint(nlt, 'count'); w.uint(r.choice([0, 1, 2, 5])); w.eol()
         linear_terms(w, r, m, nlt)
@@ -346,19 +349,19 @@ def gen_segment(w, rng, m, T, s, cov):
     elif s == 'F':
         i = r.randrange(m.nf)
         m.funcs_defined.add(i)
-        w.ch('F', 'seg'); w.uint(i, 'idx'); w.uint(r.choice([0, 1])); w.int32(r.choice([-1, 0, 1, 2, 3, -3]))
+        w.ch('F', 'seg'); w.uint(i, 'idx', m.nf); w.uint(r.choice([0, 1]), 'int', 2); w.int32(r.choice([-1, 0, 1, 2, 3, -3]))
         w.name(r.choice([b'f', b'sqrt2', b'my_func', b'g\xc3\xa9', b'x' * 40])); w.eol()
     elif s in 'GJ':
-        w.ch(s, 'seg'); w.uint(r.randrange(m.no if s == 'G' else m.nc), 'idx')
-        n = r.randint(1, m.nv); w.uint(n, 'count'); w.eol(); linear_terms(w, r, m, n)
+        w.ch(s, 'seg'); w.uint(r.randrange(m.no if s == 'G' else m.nc), 'idx', m.no if s == 'G' else m.nc)
+        n = r.randint(1, m.nv); w.uint(n, 'count', m.nv + 1); w.eol(); linear_terms(w, r, m, n)
     elif s == 'S':
         kind = r.choice([k for k in range(4) if [m.nv, m.nc + m.nl, m.no, 1][k] > 0])
         items = [m.nv, m.nc + m.nl, m.no, 1][kind]
         fl = r.choice([0, 4])
-        w.ch('S', 'seg'); w.uint(kind | fl); n = r.randint(1, items); w.uint(n, 'count')
+        w.ch('S', 'seg'); w.uint(kind | fl, 'int', 8); n = r.randint(1, items); w.uint(n, 'count', items + 1)
         w.name(r.choice([b'sstatus', b'priority', b'a', b'zz_9'])); w.eol()
         for _ in range(n):
-            w.uint(r.randrange(items), 'idx')
+            w.uint(r.randrange(items), 'idx', items)
             if fl:
                 w.dbl()
             else:
@@ -377,9 +380,9 @@ def gen_segment(w, rng, m, T, s, cov):
             w.uint(acc); w.eol()
     elif s in 'xd':
         items = m.nv if s == 'x' else m.nc
-        w.ch(s, 'seg'); n = r.randint(0, items); w.uint(n, 'count'); w.eol()
+        w.ch(s, 'seg'); n = r.randint(0, items); w.uint(n, 'count', items + 1); w.eol()
         for _ in range(n):
-            w.uint(r.randrange(items), 'idx'); w.dbl(); w.eol()
+            w.uint(r.randrange(items), 'idx', items); w.dbl(); w.eol()
 
 
 def gen_valid(rng, T, mode, cov):
@@ -418,6 +421,7 @@ def gen_valid(rng, T, mode, cov):
     segs += pool
     for s in segs:
         gen_segment(w, r, m, T, s, cov)
+    m.bounds = w.bounds
     return bytes(w.out), w.fields, len(hdr), m
 
 
@@ -435,6 +439,17 @@ def mutate(rng, data, fields, hlen, mode, m, cov):
         cov['mut_' + k] = cov.get('mut_' + k, 0) + 1
     q = r.random()
     body_fields = [f for f in fields if f[2] != 'char']
+    bounds = getattr(m, 'bounds', [])
+    if fields and bounds and r.random() < 0.3:
+        # boundary mutation: a range-checked field is set to its first invalid / last valid / next value
+        fi, bound = r.choice(bounds)
+        o, n, kind = fields[fi]
+        v = bound + r.choice([0, 0, 0, -1, 1])
+        if kind in ('idx1', 'count') and r.random() < 0.3:
+            v = 0      # lower bound of 1-based / positive fields
+        hit('boundary_' + kind)
+        new = enc_int(v, n, big) if binary else str(v).encode()
+        return bytes(b[:o] + new + b[o + n:])
     if q < 0.22 and len(b) > 1:
         hit('truncate')
         cut = r.randrange(len(b)) if r.random() < 0.7 else max(0, len(b) - r.randint(1, 9))
@@ -446,6 +461,8 @@ def mutate(rng, data, fields, hlen, mode, m, cov):
         v = r.choice(near) if r.random() < 0.5 else r.choice(HOSTILE_INTS)
         if kind == 'opcode' and r.random() < 0.6:
             v = r.randrange(0, 90)
+        if kind == 'len' and r.random() < 0.7:
+            v = r.choice([len(b), len(b) - o, len(b) - o + 1, 255, 4096, 100000, INT_MAX])
         if binary:
             if kind == 'dbl':
                 new = r.choice([b'\x00' * 8, b'\xff' * 8, struct.pack('<d', float('nan')), struct.pack('>d', 1.0)])
